@@ -172,6 +172,23 @@ def d_flags(s):
     return {'ins': {'req': req}, 'outs': {'ack': ack, 'q': q}}
 
 
+def d_wideconst(s):
+    """constants beyond 32 bits (emitted as sized literals) next to a register: the text must not depend on whether / how long the
+    circuit was simulated before the request"""
+    a = W(s, 'a', 64)
+    k1, k2, k3 = W(s, 'k1', 64), W(s, 'k2', 40), W(s, 'k3', 64)
+    py4hw.Constant(s, 'k1', (1 << 40) + 5, k1)
+    py4hw.Constant(s, 'k2', -(1 << 33), k2)
+    py4hw.Constant(s, 'k3', 1 << 31, k3)
+    x, q, o = W(s, 'x', 64), W(s, 'q', 64), W(s, 'o', 40)
+    py4hw.Xor2(s, 'x', a, k1, x)
+    Reg(s, 'r', x, q)
+    t = W(s, 't', 64)
+    py4hw.Or2(s, 'or', q, k3, t)
+    py4hw.And2(s, 'and', t, k2, o)
+    return {'ins': {'a': a}, 'outs': {'q': q, 'o': o}}
+
+
 def d_twin(mod):
     def build(s):
         import importlib
@@ -185,7 +202,7 @@ def d_twin(mod):
 
 DESIGNS = {'structural': d_struct, 'hierarchy': d_hier, 'behavioural leaves': d_behav, 'constructor constants k=3': d_const(3),
            'constructor constants k=5': d_const(5),
-           'behavioural block with bool-initialised state flags': d_flags,
+           'behavioural block with bool-initialised state flags': d_flags, 'constants beyond 32 bits': d_wideconst,
            'same-named behavioural classes, module A': d_twin('a'), 'same-named behavioural classes, module B': d_twin('b')}
 
 
